@@ -13,7 +13,7 @@ c.logged = "new_config"
 c.modifies = lambda S_: [("field", S_.a.self, "_tp_config")]
 c.ens("the-given-configuration-is-the-one-acted-on", lambda S_: S_.f(S_.a.self, "_tp_config") == S_.a.new_config)
 
-c = contract(TH, "TracepointHandlerUpdateListener.config_change", ["C12"])
+c = contract(TH, "TracepointHandlerUpdateListener.config_change", ["C12", "C13"])
 c.param("self", OBJ("TracepointHandlerUpdateListener", inv=False))
 c.param("ts", VAL).param("old_hash", VAL).param("current_hash", VAL).param("old_config", VAL).param("new_config", VAL)
 c.req("listener-is-attached-to-a-handler", lambda S_: S_.I.assume_shape(S_.old.f(S_.a.self, "_handler"), OBJ("TriggerHandler")) or z3.BoolVal(True))
